@@ -6,6 +6,9 @@ import (
 	"fmt"
 	"os"
 	"os/signal"
+	"runtime"
+	"runtime/debug"
+	"runtime/pprof"
 	"strconv"
 	"syscall"
 	"time"
@@ -80,6 +83,7 @@ func cmdRun(prop string, args []string) int {
 		}
 	}
 	c.Deadline = c.Start.Add(*budget)
+	go watchdog(ws)
 	known, err := loadKnown(prop)
 	if err != nil {
 		fmt.Fprintln(os.Stderr, err)
@@ -93,4 +97,21 @@ func cmdRun(prop string, args []string) int {
 	code := c.Finish()
 	ws.Close()
 	return code
+}
+
+// watchdog aborts the run (inconclusive, with goroutine stacks) if the process grows beyond
+// 28 GiB: a check must never take the machine down.
+func watchdog(ws *Workspace) {
+	debug.SetMemoryLimit(24 << 30)
+	for {
+		time.Sleep(2 * time.Second)
+		var m runtime.MemStats
+		runtime.ReadMemStats(&m)
+		if m.Sys > 28<<30 {
+			fmt.Fprintf(os.Stderr, "watchdog: process uses %d MiB; aborting as inconclusive\n", m.Sys>>20)
+			pprof.Lookup("goroutine").WriteTo(os.Stderr, 1)
+			ws.Close()
+			os.Exit(3)
+		}
+	}
 }
